@@ -38,6 +38,8 @@ CloseLog == CASE Kind = "ioport" -> <<"in_close">> \o (IF Autoreset THEN <<"out_
               [] Kind = "echo"   -> <<"close">>
               [] OTHER           -> (IF Autoreset THEN <<"reset">> ELSE <<>>) \o <<"close">>
 
+LogTok(x) == IF Kind = "ioport" THEN (IF x = "reset" THEN "out_reset" ELSE "out_panic") ELSE x
+
 St(c, qq, sc, lg, nx) == [closed |-> c, q |-> qq, script |-> sc, log |-> lg, nextid |-> nx]
 Cur == St(closed, q, script, log, nextid)
 
@@ -123,23 +125,34 @@ Iterate == /\ HasInput
            /\ IF Kind = "echo" THEN Apply("iterate", PendLoop(Cur, <<>>, 0))
               ELSE (closed \/ Closes(script)) /\ Apply("iterate", IterLoop(Cur, <<>>, 0, 0))
 IterPending == HasInput /\ Apply("iter_pending", PendLoop(Cur, <<>>, 0))
+\* reset(): "all notes off" and "reset all controllers" on all 16 channels;
+\* panic(): "all sounds off" on all 16 channels; both do nothing on a closed port
+Reset   == /\ HasOutput /\ Kind # "echo"
+           /\ Apply("reset", Out(IF closed THEN Cur ELSE [Cur EXCEPT !.log = Append(@, LogTok("reset"))],
+                                  R("ok", <<>>), 0, 0))
+Panic   == /\ HasOutput /\ Kind # "echo"
+           /\ Apply("panic", Out(IF closed THEN Cur ELSE [Cur EXCEPT !.log = Append(@, LogTok("panic"))],
+                                  R("ok", <<>>), 0, 0))
 Close   == Apply("close", Out(DoClose(Cur), R("ok", <<>>), 0, 0))
 Exit    == Apply("exit", Out(DoClose(Cur), R("ok", <<>>), 0, 0))     \* with port: ... __exit__
 
 Next == /\ Len(hist) < MaxCalls
-        /\ (Send \/ Receive \/ Poll \/ Iterate \/ IterPending \/ Close \/ Exit)
+        /\ (Send \/ Receive \/ Poll \/ Iterate \/ IterPending \/ Close \/ Exit \/ Reset \/ Panic)
 Spec == Init /\ [][Next]_vars
 
 \* ---- properties (C11) ----
 Count(s, x) == Cardinality({i \in DOMAIN s : s[i] = x})
 \* the device is released exactly once, after the reset messages (once) when autoreset
 CloseOnce ==
-  /\ Count(log, "close") + Count(log, "out_close") <= 1
-  /\ Count(log, "reset") + Count(log, "out_reset") <= (IF Autoreset THEN 1 ELSE 0)
-  /\ closed <=> (Count(log, "close") + Count(log, "out_close") = 1)
-  /\ \A i \in DOMAIN log : log[i] \in {"reset", "out_reset"} =>
-        i < Len(log) /\ log[i + 1] \in {"close", "out_close"}
-  /\ \A i \in DOMAIN log : log[i] \in {"close", "out_close"} => i = Len(log)
+  LET closes == {i \in DOMAIN log : log[i] \in {"close", "out_close"}} IN
+  /\ Cardinality(closes) <= 1
+  /\ closed <=> (Cardinality(closes) = 1)
+  /\ \A i \in closes : i = Len(log)                         \* nothing reaches the device afterwards
+  /\ \A i \in closes : Autoreset /\ Kind \notin {"in", "echo"} =>
+        i > 1 /\ log[i - 1] \in {"reset", "out_reset"}        \* the reset messages come right before
+NoTrafficAfterClose ==
+  \A i \in DOMAIN hist : (hist[i].closed_before /\ hist[i].op \in {"reset", "panic", "close", "exit"})
+      => hist[i].r.k = "ok"
 SendAfterCloseRaises ==
   \A i \in DOMAIN hist : hist[i].op = "send" =>
      (hist[i].closed_before <=> hist[i].r.k = "ValueError")
@@ -150,7 +163,7 @@ DrainBeforeStop ==
 IterEndsCleanly ==
   \A i \in DOMAIN hist : hist[i].op \in {"iterate", "iter_pending"} => hist[i].r.k = "list"
 NonBlockingNeverWaits ==
-  \A i \in DOMAIN hist : hist[i].op \in {"poll", "iter_pending", "send", "close", "exit"}
+  \A i \in DOMAIN hist : hist[i].op \in {"poll", "iter_pending", "send", "close", "exit", "reset", "panic"}
      => hist[i].sleeps = 0
 \* a blocking receive never sleeps while a message is deliverable
 ReturnsWhenDeliverable ==
